@@ -92,7 +92,25 @@ def prepare(ch):
     prep.borrowed = prep.src.flavour in ("agen", "aiter_cls", "aiter_full") and ch.chance(1, 6)
     ops = []
     depth = 1
-    for _ in range(ch.between(1, 6)):
+    if ch.chance(1, 300):
+        # once in a while a long underlying stream and a selection of more than a thousand items from it that fails at an
+        # item which cannot be ordered: the handle goes on from where the stdlib's heap left a shared iterator
+        from ..actors import Item, Unorderable
+        n_sel = 1024 + ch.draw(8)
+        bad_at = n_sel + 2 + ch.draw(20)
+        long_items = [Item(i % 7, ("L", i)) for i in range(bad_at + 30)]
+        long_items[bad_at] = Unorderable(("L", bad_at))
+        prep.src = g.src(long_items, ("list", "aiter_noclose", "sync_iter"))
+        prep.src.suspend = ()
+        prep.src.lazy_open = False
+        prep.borrowed = False
+        gt = Gen(ch, cfg, "t0")
+        aspec = AGGS[("nlargest", "nsmallest")[ch.draw(2)]].gen(gt)
+        aspec.p["n"] = n_sel
+        aspec.fns = [None]
+        ops = [("agg", aspec), ("pull", 2)]
+        prep.giant = True
+    for _ in range(ch.between(1, 6) if not ops else 0):
         # tool | direct pull | enter nested | leave nested | raise inside scope | nested scope that fails and is caught
         kind = ch.weighted([6, 2, 2, 2, 1, 2, 2])
         if kind == 6:
